@@ -42,6 +42,13 @@ class CbErr(Exception):
     pass
 
 
+class FalsyFnErr(FnErr):
+    """false in a boolean context: `if exception:` is not a test for "the function raised" """
+
+    def __bool__(self):
+        return False
+
+
 class FnBaseErr(BaseException):
     pass
 
@@ -167,7 +174,7 @@ class ToThreadRun:
                     else:
                         self.bump("callback_sync_ok")
                 elif step in ("raise", "raise_sai", "raise_base"):
-                    exc = FnErr(cid) if step == "raise" else StopAsyncIteration(cid) if step == "raise_sai" else FnBaseErr(cid)
+                    exc = (FalsyFnErr(cid) if (cid[0] + cid[1]) % 3 == 0 else FnErr(cid)) if step == "raise" else StopAsyncIteration(cid) if step == "raise_sai" else FnBaseErr(cid)
                     st["raised"] = exc
                     raise exc
             # what the function returns is data, whatever its type: a tuple, None, or an exception *instance*
